@@ -1197,11 +1197,23 @@ func (m *Machine) mapFind(mp *mapV, k value) *mapEntry {
 		}
 		return nil
 	}
-	for _, e := range mp.entries {
+	// keys of a map are pairwise distinct under the path condition, so an entry
+	// whose key is syntactically the same term is the entry (no forks needed)
+	conds := make([]*smt.Term, len(mp.entries))
+	for i, e := range mp.entries {
 		if e.deleted {
 			continue
 		}
-		if m.branch(m.equals(mp.keyT, e.k, k)) {
+		conds[i] = m.equals(mp.keyT, e.k, k)
+		if conds[i].IsTrue() {
+			return e
+		}
+	}
+	for i, e := range mp.entries {
+		if e.deleted || conds[i] == nil {
+			continue
+		}
+		if m.branch(conds[i]) {
 			return e
 		}
 	}
